@@ -17,6 +17,9 @@ MAP = [  # (commit, property, hunt dir, note)
     ("1022e6e", "C13", "../hunt2/C13/2", ""), ("101eae2", "C13", "../hunt2/C13/3", ""),
     ("f0ec305", "C12", "../hunt2/C12/6", "demo needs `--features jsonld` in crate sophia"), ("de7209f", "C12", "../hunt2/C12/1", "demo needs `--features jsonld` in crate sophia"),
     ("27785fa", "C06", "../hunt2/C06/1", ""), ("439a801", "C06", "../hunt2/C06/2", ""),
+    ("0f910ee", "C02", "../hunt2/C01/1", ""), ("282c9f2", "C01", "../hunt2/C01/2", ""), ("2605078", "C02", "../hunt2/C02/1", ""),
+    ("1962b55", "C02", "../hunt2/C02/2", "demo aborts the process (SIGABRT) with the patch: run with -- --test-threads 1"),
+    ("9de8449", "C15", "../hunt2/C15/1", ""), ("28a8762", "C15", "../hunt2/C15/2", ""), ("cca14e6", "C14", "../hunt2/C14/3", ""),
 ]
 
 def sh(cmd, cwd=WT):
